@@ -17,7 +17,12 @@ pub fn run(v: &serde_json::Value, rep: &mut Report) -> Result<(), String> {
     let default_orders = serde_json::json!([
         {"type":"Standard","id":1,"vis":10,"side":"Sell","ts":1},
         {"type":"Iceberg","id":2,"vis":5,"hid":20,"side":"Sell","ts":2},
-        {"type":"Reserve","id":3,"vis":7,"hid":9,"threshold":2,"amount":4,"auto":true,"side":"Sell","ts":3}]);
+        {"type":"Reserve","id":3,"vis":7,"hid":9,"threshold":2,"amount":4,"auto":true,"side":"Sell","ts":3},
+        {"type":"PostOnly","id_str":"01ARZ3NDEKTSV4RRFFQ69G5FAV","vis":7,"side":"Buy","ts":4,"tif":"Ioc"},
+        {"type":"TrailingStop","id":5,"vis":6,"side":"Sell","ts":5,"tif":"Fok","trail_amount":25,"last_reference_price":10500},
+        {"type":"PeggedOrder","id":6,"vis":8,"side":"Sell","ts":6,"tif":"Gtd","gtd":18446744073709551615u64,"reference_price_offset":-50,"reference_price_type":"MidPrice"},
+        {"type":"MarketToLimit","id_str":"6ba7b810-9dad-11d1-80b4-00c04fd430c8","vis":9,"side":"Sell","ts":9007199254740993u64},
+        {"type":"Reserve","id":8,"vis":0,"hid":6,"threshold":0,"auto":false,"side":"Sell","ts":7}]);
     let orders = v.get("orders").cloned().unwrap_or(default_orders);
     for jo in orders.as_array().ok_or("orders must be a list")? {
         let mut jo: JOrder = serde_json::from_value(jo.clone()).map_err(|e| e.to_string())?;
@@ -42,7 +47,14 @@ pub fn run(v: &serde_json::Value, rep: &mut Report) -> Result<(), String> {
             if let Ok(j) = serde_json::from_str::<serde_json::Value>(&s) {
                 // the faulted text parses to a DIFFERENT package (some field, e.g. a stored aggregate, the checksum or
                 // the version was altered) and is nevertheless accepted
-                if j != orig {
+                // compared by VALUE: version, checksum, price, stored aggregates, and the sequence of orders field for
+                // field (a different spelling of the same value - e.g. a ULID in lower case - is not an alteration)
+                let key = |j: &serde_json::Value| {
+                    let os: Option<Vec<OrderType<()>>> = j["snapshot"]["orders"].as_array().map(|a| a.iter().filter_map(|o| serde_json::from_value::<OrderType<()>>(o.clone()).ok()).collect());
+                    (j["version"].clone(), j["checksum"].clone(), j["snapshot"]["price"].clone(), j["snapshot"]["visible_quantity"].clone(), j["snapshot"]["hidden_quantity"].clone(), j["snapshot"]["order_count"].clone(),
+                     j["snapshot"]["orders"].as_array().map(|a| a.len()), os)
+                };
+                if key(&j) != key(&orig) {
                     rep.violation("C09", "restore.accepts_tampered_package", format!("{what}: a package that differs from the original in some field is accepted; faulted text = {s}"));
                     return true;
                 }
@@ -70,6 +82,46 @@ pub fn run(v: &serde_json::Value, rep: &mut Report) -> Result<(), String> {
             if check(serde_json::to_vec(&jj).unwrap(), format!("checksum cut to {k} chars + price edit"), rep) { return Ok(()); }
         }
     }
-    eprintln!("package_faults: {tried} faulted packages, none accepted with altered content");
+    // structural edits on the parsed package: every leaf value altered, orders swapped / dropped / duplicated, version changed
+    fn leaves(v: &serde_json::Value, path: &mut Vec<String>, out: &mut Vec<Vec<String>>) {
+        match v {
+            serde_json::Value::Object(m) => for (k, x) in m { path.push(k.clone()); leaves(x, path, out); path.pop(); },
+            serde_json::Value::Array(a) => for (i, x) in a.iter().enumerate() { path.push(i.to_string()); leaves(x, path, out); path.pop(); },
+            _ => out.push(path.clone()),
+        }
+    }
+    fn at<'a>(v: &'a mut serde_json::Value, path: &[String]) -> &'a mut serde_json::Value {
+        let mut cur = v;
+        for k in path { cur = if cur.is_array() { &mut cur[k.parse::<usize>().unwrap()] } else { &mut cur[k.as_str()] }; }
+        cur
+    }
+    let mut ls = vec![]; leaves(&j, &mut vec![], &mut ls);
+    for path in &ls {
+        let orig = at(&mut j.clone(), path).clone();
+        let mut alts: Vec<serde_json::Value> = vec![];
+        match &orig {
+            serde_json::Value::Number(n) => { if let Some(u) = n.as_u64() { alts.push(serde_json::json!(u.wrapping_add(1))); alts.push(serde_json::json!(u / 2)); alts.push(serde_json::json!(0)); } else if let Some(i) = n.as_i64() { alts.push(serde_json::json!(i.wrapping_add(1))); alts.push(serde_json::json!(-i)); } }
+            serde_json::Value::String(t) => { let mut c: Vec<char> = t.chars().collect(); if let Some(x) = c.last_mut() { *x = if *x == '0' { '1' } else { '0' }; } alts.push(serde_json::json!(c.iter().collect::<String>())); alts.push(serde_json::json!("")); alts.push(serde_json::json!("Buy")); alts.push(serde_json::json!("Gtc")); }
+            serde_json::Value::Bool(b) => alts.push(serde_json::json!(!b)),
+            serde_json::Value::Null => { alts.push(serde_json::json!(0)); alts.push(serde_json::json!(1)); }
+            _ => {}
+        }
+        for a in alts {
+            if a == orig { continue; }
+            let mut jj = j.clone(); *at(&mut jj, path) = a;
+            if check(serde_json::to_vec(&jj).unwrap(), format!("field {} edited", path.join(".")), rep) { return Ok(()); }
+        }
+    }
+    if let Some(n) = j["snapshot"]["orders"].as_array().map(|a| a.len()) {
+        for i in 0..n {
+            let mut jj = j.clone(); jj["snapshot"]["orders"].as_array_mut().unwrap().remove(i);
+            if check(serde_json::to_vec(&jj).unwrap(), format!("order #{i} dropped"), rep) { return Ok(()); }
+            let mut jj = j.clone(); let d = jj["snapshot"]["orders"][i].clone(); jj["snapshot"]["orders"].as_array_mut().unwrap().insert(i, d);
+            if check(serde_json::to_vec(&jj).unwrap(), format!("order #{i} duplicated"), rep) { return Ok(()); }
+            if i + 1 < n { let mut jj = j.clone(); jj["snapshot"]["orders"].as_array_mut().unwrap().swap(i, i + 1);
+                if check(serde_json::to_vec(&jj).unwrap(), format!("orders #{i} and #{} swapped", i + 1), rep) { return Ok(()); } }
+        }
+    }
+    eprintln!("package_faults: {tried} faulted packages (byte faults, truncations, checksum-prefix pairs, every field edited, orders swapped / dropped / duplicated), none accepted with altered content");
     Ok(())
 }
